@@ -36,7 +36,9 @@ Inductive case :=
 (* logger.New(w, format) then Log(e): impl = Err k when New failed (1 invalid field,
    2 empty format), Panic when Log panicked, otherwise all bytes written to w;
    nwrites = number of w.Write calls; ref = the line rendered with fmt / strconv /
-   time.Format in UTC / net.SplitHostPort (None: outside the domain the reference covers) *)
+   time.Format in UTC / net.SplitHostPort (None: outside the domain the reference covers).
+   A panic of Log and a time field that is not the UTC rendering are plain violations
+   (they were known findings F-C20-1 / F-C20-2 until bb1b4e7 / 1da7601). *)
 | CLog (format : str) (e : event) (impl : outcome str) (nwrites : N) (ref : option str).
 
 Definition atoi_domain (i pad : Z) : bool := int64_ok i && (pad <=? 127)%Z.
@@ -87,8 +89,7 @@ Definition check_case (c : case) : N :=
                        end)
                   | _ => false
                   end in
-      let region := if negb (addr_ok s) then Some 1
-                    else if bracketed s then Some 3 else None in
+      let region := if bracketed s then Some 3 else None in
       verdict same spec region (is_ok m)
   | CLex s typ n =>
       let '(t, k) := lex s in
@@ -113,10 +114,7 @@ Definition check_case (c : case) : N :=
                             && match ref with Some r => beq s r | None => true end
                   end in
       let region := match new_logger format with
-                    | Ok p => if region_noport p e then Some 1
-                              else if region_localtime p e then Some 2
-                              else if region_brackets p e then Some 3
-                              else None
+                    | Ok p => if region_brackets p e then Some 3 else None
                     | _ => None
                     end in
       verdict same spec region (match m with Ok (_ :: _) => true | _ => false end)
